@@ -163,4 +163,75 @@ theorem loadLoop_good (cfg : Config) (n : Nat) (idx : List Nat) (k : Nat) (hk : 
           · exact ⟨by simpa using hlen, hne'⟩
           · exact h3 c hc
 
+/-! ## a malformed record in the middle: the general form of the silent truncation -/
+
+/-- a record the csv reader returns with an error (wrong field count or bare quote) -/
+structure BadRec (n : Nat) (r : Rec) : Prop where
+  notBlank : r ≠ [[]]
+  bad : hasBareQuote r = true ∨ r.length ≠ n
+
+theorem read_bad {n : Nat} {r : Rec} (h : BadRec n r) (rest : List Rec) : read n (r :: rest) = .err rest := by
+  have h1 : (r == [[]]) = false := beq_eq_false_iff_ne.mpr h.notBlank
+  rcases h.bad with hq | hl
+  · simp [read, h1, hq]
+  · by_cases hq : hasBareQuote r = true
+    · simp [read, h1, hq]
+    · simp [read, h1, hq, hl]
+
+theorem readChunk_prefix_bad {cfg : Config} {n : Nat} {idx : List Nat} (k : Nat) (p : List Rec) (bad : Rec)
+    (rest : List Rec) (hp : ∀ r ∈ p, GoodRec cfg n idx r) (hbad : BadRec n bad) :
+    readChunk n k (p ++ bad :: rest) =
+      if p.length < k then (p, true, rest) else (p.take k, false, p.drop k ++ bad :: rest) := by
+  induction k generalizing p with
+  | zero => simp [readChunk]
+  | succ k ih =>
+    cases p with
+    | nil => simp [readChunk, read_bad hbad]
+    | cons r p' =>
+      rw [List.cons_append, readChunk, read_good (hp r List.mem_cons_self)]
+      simp only []
+      rw [ih p' (fun x hx => hp x (List.mem_cons_of_mem _ hx))]
+      by_cases h : p'.length < k
+      · simp [h]
+      · simp [h]
+
+/-- good records, then a malformed one, then anything: the load ends `ok` with exactly the rows
+    before the malformed record — for every chunk size -/
+theorem loadLoop_truncated (cfg : Config) (n : Nat) (idx : List Nat) (k : Nat) (hk : 1 ≤ k)
+    (htz : ∀ h : cfg.tz = .invalid, False) (hb : cfg.schema.any (fun c => c.2 == .bool) = false)
+    (bad : Rec) (rest : List Rec) (hbad : BadRec n bad)
+    (fuel : Nat) (p : List Rec) (hf : (p ++ bad :: rest).length < fuel) (hp : ∀ r ∈ p, GoodRec cfg n idx r) :
+    (loadLoop cfg n 0 idx k fuel (p ++ bad :: rest)).status = .ok ∧
+    (loadLoop cfg n 0 idx k fuel (p ++ bad :: rest)).chunks.flatten = p.map (rowOf cfg idx) := by
+  induction fuel generalizing p with
+  | zero => omega
+  | succ fuel ih =>
+    rw [loadLoop, readChunk_prefix_bad k p bad rest hp hbad]
+    by_cases hlt : p.length < k
+    · simp only [hlt, if_true]
+      cases p with
+      | nil => simp
+      | cons r p' =>
+        simp only [List.isEmpty_cons, Bool.false_eq_true, if_false]
+        rw [convertChunk_good cfg n idx _ htz hb hp]
+        simp
+    · simp only [hlt, if_false]
+      cases p with
+      | nil => simp at hlt; omega
+      | cons r p' =>
+        have hne : ((r :: p').take k).isEmpty = false := by
+          cases k with
+          | zero => omega
+          | succ k => simp
+        rw [hne]
+        simp only [Bool.false_eq_true, if_false]
+        rw [convertChunk_good cfg n idx _ htz hb (fun x hx => hp x (List.mem_of_mem_take hx))]
+        simp only []
+        have hlen : (((r :: p').drop k) ++ bad :: rest).length < fuel := by
+          simp only [List.length_append, List.length_drop, List.length_cons] at hf ⊢; omega
+        obtain ⟨h1, h2⟩ := ih ((r :: p').drop k) hlen (fun x hx => hp x (List.mem_of_mem_drop hx))
+        refine ⟨h1, ?_⟩
+        simp only [List.flatten_cons, h2]
+        rw [← List.map_append, List.take_append_drop]
+
 end Mkts.Csv
